@@ -6,7 +6,7 @@ Driver for C08. Sub-streams:
 `hist` — history of index files in a real repository, incremental `LoadIndex` on one long-lived
 repository object, compared with the model, with the specification (the files currently present)
 and with a fresh repository object:
-  file <fid> / fpack <fid> <pack> <t:id:off:len:ulen>* / bad <fid> / del <fid>
+  file <fid> / fpack <fid> <pack> <t:id:off:len:ulen>* / bad <fid> / del <fid> / pending <h> <size>
   load ok|err       then lookup <h> <pb>* / size <h> <n|-> / list <pb>*      (pb = pack:t:id:off:len:ulen)
   fresh ok|err      then flookup / fsize / flist
 `codec` — store <pack> <blob>* ; orig <pb>* ; encode ok ; epack <pack> <blob>* ; decode ok ; decoded <pb>*
@@ -136,6 +136,10 @@ def stepRec (s : St) (r : Array String) : St :=
     { s with files := addPack s.files (parseID (r.getD 1 "-")) (parseID (r.getD 2 "-"), parseBlobs r 3) }
   else if key == "bad" then ({ s with files := s.files ++ [(parseID (r.getD 1 "-"), none)] }).label "undecodable-file"
   else if key == "del" then ({ s with files := s.files.filter fun f => f.1 != parseID (r.getD 1 "-") }).label "file-removed"
+  else if key == "pending" then
+    -- an aborted upload: SaveBlob announced the blob with AddPending, its pack never reached the index
+    let h := parseHandle (r.getD 1 "")
+    ({ s with mi := (s.mi.addPending h ((r.getD 2 "0").toNat?.getD 0)).1 }).label "pending-blob-of-aborted-upload"
   else if key == "load" then
     let cleared := s.mi.first.ids.any fun id => !(s.files.map (·.1)).contains id
     let s := if cleared then s.label "reload-clears-index" else if !s.mi.first.ids.isEmpty then s.label "reload-incremental" else s
